@@ -299,7 +299,16 @@ class M1:
             calls = [(c.trait, c.name) for _, _, c in b.calls()]
             if (R.T_ATOMIC, "progress_and_get_begin_idx") in calls and F.impl_self_adt(b) not in R.impl \
                     and any(tr == R.T_CHUNK for tr, _ in calls):
-                bn = b
+                # (when the reservation sits in a small helper of the driver, the driver is the function that also pulls)
+                if bn is None or (R.T_CHUNK, "pull") in calls:
+                    bn = b
+            elif (R.T_CHUNK, "pull") in calls and F.impl_self_adt(b) not in R.impl:
+                # the driver pulls here and reserves through a private helper of its own
+                for _bi, _t, c in b.calls():
+                    hb = F.bodies.get(c.def_) if (c.local and not c.trait and not c.indirect) else None
+                    if hb is not None and F.impl_self_adt(hb) == F.impl_self_adt(b) and any(
+                            c2.trait == R.T_ATOMIC and c2.name == "progress_and_get_begin_idx" for _x, _y, c2 in hb.calls()):
+                        bn = b
         self.buffered_next = bn
         for w in env.worlds():
             X = w["iter"]
@@ -1038,6 +1047,13 @@ def rule_nonempty(env, shared):
                 uctx = env.ctx(ub, u.self_adt, u.world)
                 for (bi, s, agg) in _some_blocks(env, ub, uctx):
                     blocks.append((bi, s, agg, ub, uctx))
+            if not blocks:
+                # built by a constructor function of the crate (`NextChunk::new(begin, values)`): judged on the value the pull
+                # returns, at its return
+                res_ = u.result()
+                rets_ = [x for x in u.body.exits() if u.body.term(x)["k"] == "return" and not u.body.blocks[x]["cleanup"]]
+                if res_[0] == "agg" and res_[1].endswith("NextChunk::NextChunk") and rets_:
+                    blocks.append((rets_[0], {"loc": u.body.term(rets_[0])["loc"]}, res_, u.body, u.ctx))
             if not blocks:
                 out.append(Ob("NONEMPTY", key, "viol", u.body.file_line(), "cannot find where the chunk pull of %s builds its "
                               "NextChunk" % u.world["name"]))
